@@ -109,6 +109,8 @@ enum RespSel {
     Conflicting,
     /// 200 with a file body that is shorter than its declared length: the write fails after the head went out
     ShortFile,
+    /// 200 with a file body whose file does not exist: also fails after the head went out
+    MissingFile,
 }
 
 #[derive(Clone, Copy, Debug, PartialEq, Eq)]
@@ -141,6 +143,7 @@ const ALL_OPS: [OpK; 15] = [
 
 fn make_response(sel: RespSel, dir: &std::path::Path) -> Response {
     match sel {
+        RespSel::MissingFile => Response::new(200).with_body(servlin::ResponseBody::File(dir.join("no-such-body.bin"), 10)),
         RespSel::ShortFile => {
             let p = dir.join("short-body.bin");
             std::fs::write(&p, b"four").unwrap();
@@ -358,7 +361,7 @@ impl Model {
                 match sel {
                     RespSel::Unwritable => (Exp::Err(HttpError::UnwritableResponse), Wire::Nothing),
                     RespSel::Conflicting => (Exp::Err(HttpError::DuplicateContentLengthHeader), Wire::Nothing),
-                    RespSel::ShortFile => {
+                    RespSel::ShortFile | RespSel::MissingFile => {
                         // bytes went out, then the body source failed: the write side is shut
                         // down and nothing else may ever be written
                         self.write = MWrite::Shutdown;
@@ -791,7 +794,7 @@ fn sampled(cfg: &RunCfg) -> Outcome {
         let op = if i == 0 && gen::ratio(3, 4) {
             OpK::ReadRequest
         } else if gen::ratio(1, 12) {
-            OpK::Write(RespSel::ShortFile)
+            OpK::Write(if gen::ratio(1, 2) { RespSel::ShortFile } else { RespSel::MissingFile })
         } else {
             ALL_OPS[gen::below(15) as usize]
         };
